@@ -516,6 +516,8 @@ class Bf3File:
                 else:
                     cmd, params_str = cmd_params_tuple
                 params = dict(p.strip().split("=") for p in params_str.split(",") if p)
+                if cmd == "load":
+                    raise ValueError("reserved instruction name")
                 yield cmd, params
             elif line.startswith("##"):
                 name, value = line[2:].split(":")
